@@ -77,6 +77,23 @@ def family():
                       {"cfg": cfg, "keys": ["k1", "k2"], "init": init,
                        "threads": [[{"op": "incr", "k": 1, "d": 1}], [{"op": "delete", "k": 1}, {"op": "flush"},
                                                                        {"op": "insert", "k": 2, "v": ONE1}, {"op": "flush"}]]}))
+    # the NEIGHBOUR of a retired extent: k1's record fills its last block exactly (or ends a few bytes short of it)
+    # in the header size of the device's format (v1: 22 bytes + key, v2/v3: 30 bytes + key); k2 lives in the block
+    # right behind it and a reader holds k2's extent pinned while k1 is deleted / replaced and its extent retired
+    # and reused.  Nothing may be written into k2's blocks, k2 stays readable.
+    for fmt in (1, 2, 3):
+        hdr = 22 if fmt == 1 else 30
+        for short in (0, 5):
+            exact = {"k": "b", "id": 11, "len": 4096 - hdr - 2 - short, "n": 0}
+            cfg = {"pers": True, "ttl": fmt != 1, "lim": -1, "cache": False, "blocks": 24, "fmt": fmt}
+            init = [{"op": "insert", "k": 1, "v": exact, "auto": False, "tsv": NOW - 10 * E9}, {"op": "flush"},
+                    {"op": "insert", "k": 2, "v": ONE1, "auto": False, "tsv": NOW - 10 * E9}, {"op": "flush"}]
+            for wn, w in (("del", [{"op": "delete", "k": 1}, {"op": "flush"}, {"op": "insert", "k": 3, "v": ONE2}, {"op": "flush"}]),
+                          ("upd", [{"op": "insert", "k": 1, "v": ONE2}, {"op": "flush"}])):
+                progs.append(("neigh_v%d_%d_%s" % (fmt, short, wn),
+                              {"cfg": cfg, "keys": ["k1", "k2", "k3"], "init": init,
+                               "points": ["get_read", "rd_pinned", "rd_sector", "ret_device", "ret_release", "resolve_retry"],
+                               "threads": [[{"op": "get", "k": 2}, {"op": "get", "k": 2}], w]}))
     return progs
 
 
@@ -134,7 +151,7 @@ def run(tier, seed):
     fam = family()
     if tier == "quick":
         rng.shuffle(fam)
-        keep = ("deferred_", "fulldev_")
+        keep = ("deferred_", "fulldev_", "neigh_v1_0", "neigh_v2_0", "neigh_v3_5")
         fam = [x for x in fam if x[0].startswith(keep)] + [x for x in fam if not x[0].startswith(keep)][:14]
     groups = [fam[i:i + 2] for i in range(0, len(fam), 2)]
     late = late_pin_family()
